@@ -30,6 +30,7 @@ type c09case struct {
 	Op       string `json:"op"`
 	Field    int32  `json:"field,omitempty"`
 	Artefact string `json:"artefact,omitempty"`
+	ABase    string `json:"artefact_base,omitempty"`
 }
 
 type triple struct {
@@ -493,6 +494,12 @@ func artefactsOf(md protoreflect.MessageDescriptor) []artefact {
 				}
 				f.Set(reflect.MakeSlice(f.Type(), 1, 1))
 				return true
+			}}, artefact{"list[{x},nil]", fd, func(p proto.Message) bool {
+				return listWithNil(p, fd, 2, 0)
+			}}, artefact{"list[nil,{x}]", fd, func(p proto.Message) bool {
+				return listWithNil(p, fd, 2, 1)
+			}}, artefact{"list[{x},nil,{x}]", fd, func(p proto.Message) bool {
+				return listWithNil(p, fd, 3, 0, 2)
 			}}, artefact{"list[{},nil]", fd, func(p proto.Message) bool {
 				f := structFieldFor(p, fd)
 				if !f.IsValid() {
@@ -542,15 +549,79 @@ func artefactsOf(md protoreflect.MessageDescriptor) []artefact {
 	return out
 }
 
+// listWithNil stores an n-element list whose elements at the given indexes are messages with one field
+// populated and whose other elements are nil.
+func listWithNil(p proto.Message, fd protoreflect.FieldDescriptor, n int, filled ...int) bool {
+	f := structFieldFor(p, fd)
+	if !f.IsValid() {
+		return false
+	}
+	s := reflect.MakeSlice(f.Type(), n, n)
+	for _, i := range filled {
+		e := reflect.New(f.Type().Elem().Elem())
+		if inner := firstScalarField(fd.Message()); inner != nil {
+			e.Interface().(proto.Message).ProtoReflect().Set(inner, sampleValue(inner, 0))
+		}
+		s.Index(i).Set(e)
+	}
+	f.Set(s)
+	return true
+}
+
+// fullDyn populates every field (one member per oneof) with its first representative candidate.
+func fullDyn(md protoreflect.MessageDescriptor) protoreflect.Message {
+	sp := enum.NewSpace(md, enum.Opts{Top: enum.Reduced, MaxDepth: 1, NoUnk: true})
+	d := enum.NewDyn(md)
+	seenOneof := map[string]bool{}
+	for _, sl := range sp.Slots {
+		if sl.Oneof != "" {
+			if seenOneof[sl.Oneof] {
+				continue
+			}
+			seenOneof[sl.Oneof] = true
+		}
+		for _, c := range sl.Cands {
+			if c.Rep {
+				c.Apply(d)
+				break
+			}
+		}
+	}
+	return d
+}
+
 func runArtefacts(h *hz.H, md protoreflect.MessageDescriptor, only *c09case) {
+	for _, base := range []string{"", "all-other-fields-populated"} {
+		if only != nil && only.ABase != base {
+			continue
+		}
+		runArtefactsOn(h, md, only, base)
+	}
+}
+
+func runArtefactsOn(h *hz.H, md protoreflect.MessageDescriptor, only *c09case, base string) {
 	tname := string(md.FullName())
 	mi := enum.InfoByName(md.FullName())
+	var full protoreflect.Message
+	suffix := ""
+	if base != "" {
+		full = fullDyn(md)
+		suffix = " (" + base + ")"
+	}
 	for _, a := range artefactsOf(md) {
+		a := a
 		if only != nil && (only.Artefact != a.name || only.Field != int32(a.fd.Number())) {
 			continue
 		}
+		if base != "" && strings.HasPrefix(a.name, "oneof-typed-nil") {
+			continue
+		}
+		aname := a.name + suffix
 		mk := func() (proto.Message, bool) {
 			p := enum.NewGo(md)
+			if full != nil {
+				p = enum.BuildGo(full)
+			}
 			ok := false
 			if pv := hz.Catch(func() { ok = a.apply(p) }); pv != nil {
 				return nil, false
@@ -570,20 +641,20 @@ func runArtefacts(h *hz.H, md protoreflect.MessageDescriptor, only *c09case) {
 				}
 				return
 			}
-			h.Violate(fmt.Sprintf("C09/artefact:%s/%s/%s@%s", a.name, op, shapeOf(a.fd), tname), what, c09case{Type: tname, Op: op, Field: int32(a.fd.Number()), Artefact: a.name, Origin: origin{Base: "artefact"}})
+			h.Violate(fmt.Sprintf("C09/artefact:%s/%s/%s@%s", aname, op, shapeOf(a.fd), tname), what, c09case{Type: tname, Op: op, Field: int32(a.fd.Number()), Artefact: a.name, ABase: base, Origin: origin{Base: "artefact"}})
 		}
 		cmp := func(op string, ff func(m protoreflect.Message, s bool) string) {
 			p1, _ := mk()
 			p2, _ := mk()
 			ref := try(func() string { return ff(mi.MessageOf(p1), true) })
 			got, pv := tryP(func() string { return ff(p2.ProtoReflect(), false) })
-			h.Eval(true, hz.Hash("C09a", tname, a.name, fmt.Sprint(a.fd.Number()), op))
+			h.Eval(true, hz.Hash("C09a", tname, aname, fmt.Sprint(a.fd.Number()), op))
 			if ref == "PANIC" {
 				h.Counter("artefact_ops_where_the_reference_panics_not_judged", 1)
 				return
 			}
 			if got != ref {
-				w := fmt.Sprintf("%s on %s with %s in field %s: generated gives %s, protobuf-go's struct reflection over the same struct gives %s", op, tname, a.name, a.fd.Name(), clipS(got), clipS(ref))
+				w := fmt.Sprintf("%s on %s with %s in field %s: generated gives %s, protobuf-go's struct reflection over the same struct gives %s", op, tname, aname, a.fd.Name(), clipS(got), clipS(ref))
 				if pv != nil {
 					w += fmt.Sprintf(" (panic: %v)", pv)
 				}
@@ -639,12 +710,12 @@ func runArtefacts(h *hz.H, md protoreflect.MessageDescriptor, only *c09case) {
 			gotSize = proto.Size(p2)
 			gotB, gerr = proto.MarshalOptions{Deterministic: true}.Marshal(p2)
 		})
-		h.Eval(true, hz.Hash("C09a", tname, a.name, fmt.Sprint(a.fd.Number()), "codec"))
+		h.Eval(true, hz.Hash("C09a", tname, aname, fmt.Sprint(a.fd.Number()), "codec"))
 		if refP == nil {
 			if gotP != nil || gerr != nil {
-				report("Size/Marshal", fmt.Sprintf("proto.Size/Marshal on %s with %s in field %s: panic=%v err=%v; the reference codec over the same struct encodes it as %x", tname, a.name, a.fd.Name(), gotP, gerr, refB))
+				report("Size/Marshal", fmt.Sprintf("proto.Size/Marshal on %s with %s in field %s: panic=%v err=%v; the reference codec over the same struct encodes it as %x", tname, aname, a.fd.Name(), gotP, gerr, refB))
 			} else if !bytes.Equal(gotB, refB) || gotSize != len(gotB) {
-				report("Size/Marshal", fmt.Sprintf("%s with %s in field %s: generated size=%d bytes=%x, reference bytes=%x", tname, a.name, a.fd.Name(), gotSize, gotB, refB))
+				report("Size/Marshal", fmt.Sprintf("%s with %s in field %s: generated size=%d bytes=%x, reference bytes=%x", tname, aname, a.fd.Name(), gotSize, gotB, refB))
 			}
 			// generic library calls must accept what the reference accepts
 			// a nil element / value reads as an empty message: two such messages are equal, and so is a clone
@@ -653,7 +724,7 @@ func runArtefacts(h *hz.H, md protoreflect.MessageDescriptor, only *c09case) {
 				y, _ := mk()
 				var e1, e2, e3 bool
 				if pv := hz.Catch(func() { e1 = proto.Equal(x, y); e2 = proto.Equal(y, x); e3 = proto.Equal(proto.Clone(x), x) }); pv == nil && !(e1 && e2 && e3) {
-					report("proto.Equal-verdict", fmt.Sprintf("two %s messages holding %s in field %s: Equal(x,y)=%v Equal(y,x)=%v Equal(Clone(x),x)=%v; a nil element reads as an empty message, so all must be true", tname, a.name, a.fd.Name(), e1, e2, e3))
+					report("proto.Equal-verdict", fmt.Sprintf("two %s messages holding %s in field %s: Equal(x,y)=%v Equal(y,x)=%v Equal(Clone(x),x)=%v; a nil element reads as an empty message, so all must be true", tname, aname, a.fd.Name(), e1, e2, e3))
 				}
 			}
 			for _, l := range []struct {
@@ -675,9 +746,9 @@ func runArtefacts(h *hz.H, md protoreflect.MessageDescriptor, only *c09case) {
 				}},
 			} {
 				x, _ := mk()
-				h.Eval(true, hz.Hash("C09a", tname, a.name, fmt.Sprint(a.fd.Number()), l.name))
+				h.Eval(true, hz.Hash("C09a", tname, aname, fmt.Sprint(a.fd.Number()), l.name))
 				if pv := hz.Catch(func() { l.f(x) }); pv != nil {
-					report(l.name, fmt.Sprintf("%s on %s with %s in field %s panicked: %v", l.name, tname, a.name, a.fd.Name(), pv))
+					report(l.name, fmt.Sprintf("%s on %s with %s in field %s panicked: %v", l.name, tname, aname, a.fd.Name(), pv))
 				}
 			}
 		} else {
